@@ -311,6 +311,155 @@ func r09b(c *an.Ctx) {
 		chk(p)
 	})
 	c.Ob(key+"|stop-only-on-critical", fn.Pos(), flagOK && flagN > 0, "the weight loop is abandoned only after a critical failure (%d loop-exit flags inspected)", flagN)
+
+	// converse: every critical failure collected at this weight stops the loop. For each error collection E (the result of
+	// AwaitAll and of runTasksAsHooks) the stop flag is raised inside a range loop over E itself - or over a map that
+	// received every entry of E - under no other condition than the hook's Critical trait.
+	var flagTrueBlocks []*ssa.BasicBlock
+	an.Instrs(fn, func(in ssa.Instruction) {
+		ifi, ok := in.(*ssa.If)
+		if !ok {
+			return
+		}
+		p, ok := ifi.Cond.(*ssa.Phi)
+		if !ok || !an.InLoop(ifi.Block()) || p.Type().String() != "bool" || an.BlockReaches(ifi.Block().Succs[0], ifi.Block()) {
+			return
+		}
+		seen := map[*ssa.Phi]bool{}
+		var walk func(p *ssa.Phi)
+		walk = func(p *ssa.Phi) {
+			if seen[p] {
+				return
+			}
+			seen[p] = true
+			for i, e := range p.Edges {
+				if q, ok := e.(*ssa.Phi); ok {
+					walk(q)
+				} else if cst, ok := e.(*ssa.Const); ok && cst.Value != nil && cst.Value.String() == "true" {
+					flagTrueBlocks = append(flagTrueBlocks, p.Block().Preds[i])
+				}
+			}
+		}
+		walk(p)
+	})
+	// range loops of fn: Range instruction -> header block (the block holding its Next)
+	type rloop struct {
+		rng  *ssa.Range
+		h    *ssa.BasicBlock
+		body map[*ssa.BasicBlock]bool
+	}
+	var rloops []rloop
+	an.Instrs(fn, func(in ssa.Instruction) {
+		r, ok := in.(*ssa.Range)
+		if !ok || r.Referrers() == nil {
+			return
+		}
+		for _, ref := range *r.Referrers() {
+			if nx, ok := ref.(*ssa.Next); ok {
+				rloops = append(rloops, rloop{r, nx.Block(), an.NaturalLoop(nx.Block())})
+			}
+		}
+	})
+	derives := func(v ssa.Value, src ssa.Value) bool {
+		seen := map[ssa.Value]bool{}
+		var w func(v ssa.Value) bool
+		w = func(v ssa.Value) bool {
+			if v == nil || seen[v] {
+				return false
+			}
+			seen[v] = true
+			if v == src {
+				return true
+			}
+			if p, ok := v.(*ssa.Phi); ok {
+				for _, e := range p.Edges {
+					if w(e) {
+						return true
+					}
+				}
+			}
+			return false
+		}
+		return w(v)
+	}
+	raisesUnderCriticalOnly := func(l rloop) bool {
+		for _, b := range flagTrueBlocks {
+			if !l.body[b] {
+				continue
+			}
+			okG, crit := true, false
+			for _, g := range an.Guards(b) {
+				if g.LoopHeader || g.LoopExit || !l.body[g.If.Block()] || g.If.Block() == l.h {
+					continue
+				}
+				if isCriticalRead(g.V) && g.Val {
+					crit = true
+				} else {
+					okG = false
+				}
+			}
+			if okG && crit {
+				return true
+			}
+		}
+		return false
+	}
+	for _, src := range []struct{ callee, what string }{
+		{"(core/workflow/callable.Calls).AwaitAll", "awaited call hooks"},
+		{"(*core/environment.Environment).runTasksAsHooks", "task hooks"},
+	} {
+		calls := an.CallsNamed(fn, src.callee)
+		for _, ci := range calls {
+			call, ok := ci.(*ssa.Call)
+			if !ok {
+				continue
+			}
+			found := false
+			for _, l := range rloops {
+				if derives(l.rng.X, call) && raisesUnderCriticalOnly(l) {
+					found = true
+				}
+			}
+			if !found {
+				// a map that receives every entry of E unconditionally, scanned afterwards
+				for _, l := range rloops {
+					if !derives(l.rng.X, call) {
+						continue
+					}
+					for b := range l.body {
+						for _, in := range b.Instrs {
+							mu, ok := in.(*ssa.MapUpdate)
+							if !ok {
+								continue
+							}
+							uncond := true
+							for _, g := range an.Guards(b) {
+								if !g.LoopHeader && !g.LoopExit && l.body[g.If.Block()] && g.If.Block() != l.h {
+									uncond = false
+								}
+							}
+							if !uncond {
+								continue
+							}
+							for _, l2 := range rloops {
+								if l2.rng.X == mu.Map && an.CanReach(mu, l2.rng) && raisesUnderCriticalOnly(l2) {
+									// the scan must belong to the same weight iteration
+									if h, body := an.EnclosingLoop(call.Block()); h != nil && body[l2.h] {
+										found = true
+									}
+								}
+							}
+						}
+					}
+				}
+			}
+			c.Ob(key+"|critical-failure-stops|"+src.what, call.Pos(), found,
+				"every failed critical hook among the %s collected at this weight must stop the weight loop: the stop flag has to be raised while ranging over the collected errors themselves under no other condition than the Critical trait; otherwise hooks of later weights still run after a critical failure (e.g. a call awaited here but triggered elsewhere)", src.what)
+		}
+		if len(calls) == 0 {
+			c.Lost(src.callee + " in handleHooks")
+		}
+	}
 }
 
 func r09c(c *an.Ctx) {
